@@ -1,22 +1,43 @@
 #!/bin/bash
 # Sensitivity matrix: every hand-written mutant (mutants/*.patch), every seeded change
 # (seeded/*/patch.diff), every refactoring and every property-preserving audit candidate against
-# every quick check. Uses N parallel slots.
+# every quick check, N at a time (SLOTS, default 4), each in its own scratch worktree.
 # usage: tools/run_mutants.sh [pattern]     results -> mutants/results/<name>.json, summary on stdout
+# With SNAPSHOT=1 the machinery is first frozen into /var/tmp/pckb-verif-snap (so /verif can be
+# edited while the matrix runs); the snapshot is removed at the end.
 cd /verif
 mkdir -p mutants/results
-PAT="${1:-}"
-N=${SLOTS:-4}
-i=0
-for p in mutants/*.patch seeded/*/patch.diff refactorings/*/patch.diff preserving/*/patch.diff; do
-  [ -f "$p" ] || continue
-  case "$p" in *"$PAT"*) ;; *) continue;; esac
-  if [[ "$p" == refactorings/* ]]; then name="refac_$(basename $(dirname $p))"; demo="";
-  elif [[ "$p" == preserving/* ]]; then name="pres_$(basename $(dirname $p))"; demo="";
-  elif [[ "$p" == seeded/* ]]; then name="seeded_$(basename $(dirname $p))"; demo="--demo $(ls $(dirname $p)/demo*.rs 2>/dev/null | head -1)"; else name=$(basename "$p" .patch); demo=""; fi
-  slot=$((i % N)); i=$((i+1))
-  ( python3 tools/run_seeded.py "$p" $demo --slot $slot --json "mutants/results/$name.json" --collect "mutants/results/replays/$name" > /dev/null 2>&1 ) &
-  if [ $((i % N)) -eq 0 ]; then wait; fi
-done
-wait
+if [ -n "${SNAPSHOT:-}" ]; then
+  rm -rf /var/tmp/pckb-verif-snap; mkdir -p /var/tmp/pckb-verif-snap
+  rsync -a --exclude target --exclude .git --exclude mutants/results /verif/ /var/tmp/pckb-verif-snap/
+  export PCKB_VERIF_DIR=/var/tmp/pckb-verif-snap
+fi
+PAT="${1:-}" SLOTS="${SLOTS:-4}" python3 - <<'PY'
+import glob, os, subprocess, queue, threading
+pat = os.environ.get("PAT", ""); n = int(os.environ.get("SLOTS", "4"))
+jobs = []
+for p in sorted(glob.glob("mutants/*.patch")) + sorted(glob.glob("seeded/*/patch.diff")) + sorted(glob.glob("refactorings/*/patch.diff")) + sorted(glob.glob("preserving/*/patch.diff")):
+    if pat not in p: continue
+    d = os.path.basename(os.path.dirname(p)); demo = []
+    if p.startswith("refactorings/"): name = "refac_" + d
+    elif p.startswith("preserving/"): name = "pres_" + d
+    elif p.startswith("seeded/"):
+        name = "seeded_" + d
+        dm = sorted(glob.glob(os.path.dirname(p) + "/demo*.rs"))
+        if dm: demo = ["--demo", dm[0]]
+    else: name = os.path.basename(p)[:-6]
+    jobs.append((p, name, demo))
+slots = queue.Queue()
+for i in range(n): slots.put(i)
+def run(job):
+    p, name, demo = job
+    s = slots.get()
+    try:
+        subprocess.run(["python3", "tools/run_seeded.py", p] + demo + ["--slot", str(s), "--json", f"mutants/results/{name}.json", "--collect", f"mutants/results/replays/{name}"], stdout=subprocess.DEVNULL, stderr=subprocess.DEVNULL)
+    finally:
+        slots.put(s)
+from concurrent.futures import ThreadPoolExecutor
+with ThreadPoolExecutor(n) as ex: list(ex.map(run, jobs))
+PY
+[ -n "${SNAPSHOT:-}" ] && rm -rf /var/tmp/pckb-verif-snap
 python3 tools/summarize_mutants.py
